@@ -1,3 +1,678 @@
 package main
 
-func runExtraMode(mode string, seed int64, n int, sub string, tr *transcript) bool { return false }
+// Runtime-flavoured legs: caller-buffer aliasing (C13), retained heap (C17), goroutines under the race
+// detector (C16), aggressive GC + checkptr (C18).  They emit ordinary transcript lines wherever the Lean
+// driver can judge the result, and `assert … => ok|<what failed>` lines for Go-side observations.
+
+import (
+	"bufio"
+	"bytes"
+	"fmt"
+	"math/rand"
+	"reflect"
+	"runtime"
+	"runtime/debug"
+	"sort"
+	"strconv"
+	"strings"
+	"sync"
+
+	art "github.com/Clement-Jean/go-art"
+)
+
+func runExtraMode(mode string, seed int64, n int, sub string, tr *transcript) bool {
+	switch mode {
+	case "alias":
+		runAliasMode(seed, n, tr)
+	case "mem":
+		runMemMode(seed, n, sub, tr)
+	case "race":
+		runRaceMode(seed, n, tr)
+	case "gc":
+		runGCMode(seed, n, tr)
+	default:
+		return false
+	}
+	return true
+}
+
+// ---- C13 ---------------------------------------------------------------------------------------
+
+// callerBuf is a caller-owned array holding a key in the middle, with live caller data around it.
+type callerBuf struct {
+	arr      []byte // the whole backing array
+	off, n   int
+	capLimit int // capacity handed to the library (>= n)
+	snapshot []byte
+}
+
+func newCallerBuf(r *rand.Rand, key []byte, style int) *callerBuf {
+	pre, post := 0, 0
+	switch style {
+	case 0: // exactly full
+	case 1: // sub-slice with spare capacity holding live data
+		pre, post = r.Intn(4), 1+r.Intn(8)
+	case 2: // large scanner-style buffer
+		pre, post = 0, 64
+	}
+	arr := make([]byte, pre+len(key)+post)
+	for i := range arr {
+		arr[i] = byte(0xA0 + i%16) // canaries, never 0
+	}
+	copy(arr[pre:], key)
+	b := &callerBuf{arr: arr, off: pre, n: len(key), capLimit: len(key) + post}
+	b.snapshot = append([]byte{}, arr...)
+	return b
+}
+
+func (b *callerBuf) key() []byte { return b.arr[b.off : b.off+b.n : b.off+b.capLimit] }
+func (b *callerBuf) intact() bool { return bytes.Equal(b.arr, b.snapshot) }
+func (b *callerBuf) scribble() {
+	for i := range b.arr {
+		b.arr[i] = 0x55
+	}
+}
+
+func runAliasMode(seed int64, n int, tr *transcript) {
+	r := rand.New(rand.NewSource(seed))
+	type variant struct {
+		spec string
+		mk   func() (drvTree, func(k []byte) any)
+	}
+	id := 0
+	for round := 0; round < n; round++ {
+		for _, spec := range []string{"alpha bytes", "coll bytes root", "coll bytes loose"} {
+			id++
+			t := newTree(spec)
+			tr.emit(fmt.Sprintf("new %d %s", id, t.KindSpec()), "ok")
+			tr.comment(fmt.Sprintf("treespec %d %s", id, spec))
+			raw := t.Raw().(art.Tree[[]byte, int])
+			isAlpha := strings.HasPrefix(spec, "alpha")
+			unis := alphaUniverses()
+			if !isAlpha {
+				unis = collUniverses()
+			}
+			u := pick(r, unis)
+			present := map[string]int{}
+			var bufs []*callerBuf
+			violated := func(what string, b *callerBuf) {
+				tr.emit(fmt.Sprintf("assert %d caller-buffer-unchanged-by-%s", id, what),
+					fmt.Sprintf("modified:before=%x:after=%x:key-at=%d+%d", b.snapshot, b.arr, b.off, b.n))
+			}
+			for step := 0; step < 60; step++ {
+				lit := u.next(r)
+				if len(present) > 0 && r.Intn(3) == 0 {
+					for k := range present {
+						lit = k
+						break
+					}
+				}
+				key := unhex(lit)
+				if bytes.IndexByte(key, 0) >= 0 {
+					continue
+				}
+				if !isAlpha {
+					// C08's proviso
+					skip := false
+					for p := range present {
+						if p != lit && collCompare(strings.Fields(spec)[2], p, lit) == 0 {
+							skip = true
+						}
+					}
+					if skip {
+						continue
+					}
+				}
+				b := newCallerBuf(r, key, r.Intn(3))
+				tl := t.TranscriptLit(lit)
+				switch op := r.Intn(6); op {
+				case 0, 1: // Insert, then the caller reuses the buffer
+					v := step + 1
+					out := safely(func() string { raw.Insert(b.key(), v); return "ok" })
+					tr.emit(fmt.Sprintf("ins %d %s %d", id, tl, v), out)
+					if out == "PANIC" {
+						goto nextTree
+					}
+					present[lit] = v
+					if !b.intact() {
+						violated("Insert", b)
+					}
+					bufs = append(bufs, b)
+					if r.Intn(2) == 0 {
+						b.scribble() // the scanner idiom: the buffer now holds something else
+						tr.stats["alias-scribbles"]++
+					}
+				case 2:
+					out := safely(func() string {
+						if v, ok := raw.Search(b.key()); ok {
+							return strconv.Itoa(v)
+						}
+						return "-"
+					})
+					tr.emit(fmt.Sprintf("get %d %s", id, tl), out)
+					if !b.intact() {
+						violated("Search", b)
+					}
+				case 3:
+					out := safely(func() string {
+						if raw.Delete(b.key()) {
+							return "1"
+						}
+						return "0"
+					})
+					tr.emit(fmt.Sprintf("del %d %s", id, tl), out)
+					delete(present, lit)
+					if !b.intact() {
+						violated("Delete", b)
+					}
+				case 4:
+					if len(key) == 0 {
+						continue
+					}
+					pb := newCallerBuf(r, key[:1+r.Intn(len(key))], r.Intn(3))
+					var got []kv
+					out := safely(func() string {
+						for k, v := range raw.Prefix(pb.key()) {
+							got = append(got, kv{hexLit(k), v})
+						}
+						return renderKVs(got)
+					})
+					tr.emit(fmt.Sprintf("seq %d prefix %s 0 1", id, hexLit(pb.arr[pb.off:pb.off+pb.n])), out)
+					if !pb.intact() {
+						violated("Prefix", pb)
+					}
+				case 5:
+					if !isAlpha || len(key) == 0 {
+						continue
+					}
+					lit2 := u.next(r)
+					key2 := unhex(lit2)
+					if len(key2) == 0 || bytes.IndexByte(key2, 0) >= 0 {
+						continue
+					}
+					b2 := newCallerBuf(r, key2, r.Intn(3))
+					var got []kv
+					out := safely(func() string {
+						for k, v := range raw.Range(b.key(), b2.key()) {
+							got = append(got, kv{hexLit(k), v})
+						}
+						return renderKVs(got)
+					})
+					tr.emit(fmt.Sprintf("seq %d range %s %s 0 1", id, lit, lit2), out)
+					if !b.intact() {
+						violated("Range", b)
+					}
+					if !b2.intact() {
+						violated("Range", b2)
+					}
+				}
+				tr.stats["alias-calls"]++
+				// whatever the caller did to old buffers, the tree's content is judged by the driver
+				if step%7 == 0 {
+					var got []kv
+					out := safely(func() string {
+						for k, v := range raw.All() {
+							got = append(got, kv{hexLit(k), v})
+						}
+						return renderKVs(got)
+					})
+					tr.emit(fmt.Sprintf("seq %d all 0 1", id), out)
+				}
+			}
+			// finally every buffer ever passed in is overwritten; the tree must still hold its keys
+			for _, b := range bufs {
+				b.scribble()
+			}
+			{
+				var got []kv
+				out := safely(func() string {
+					for k, v := range raw.All() {
+						got = append(got, kv{hexLit(k), v})
+					}
+					return renderKVs(got)
+				})
+				tr.emit(fmt.Sprintf("seq %d all 0 1", id), out)
+				tr.emit(fmt.Sprintf("dump %d", id), safely(t.Dump))
+			}
+		nextTree:
+		}
+	}
+}
+
+// ---- C17 ---------------------------------------------------------------------------------------
+
+func liveHeap() uint64 {
+	runtime.GC()
+	runtime.GC()
+	var m runtime.MemStats
+	runtime.ReadMemStats(&m)
+	return m.HeapAlloc
+}
+
+func runMemMode(seed int64, n int, sub string, tr *transcript) {
+	r := rand.New(rand.NewSource(seed))
+	const slack = int64(192 << 10) // bytes; a 16 B/operation leak over n >= 1e5 operations is >= 1.6 MB
+	specs := []string{"alpha string", "alpha bytes", "num u64", "num f64", "coll string root", "coll bytes loose", "coll runes root", "comp u16,i32,s"}
+	if sub != "" {
+		specs = strings.Split(sub, ";")
+	}
+	for _, spec := range specs {
+		memOne(r, n, slack, spec, tr)
+	}
+}
+
+func memOne(r *rand.Rand, n int, slack int64, spec string, tr *transcript) {
+	defer func() {
+		if rec := recover(); rec != nil {
+			tr.emit("assert 0 no-panic-during-memory-run/"+strings.ReplaceAll(spec, " ", "_"), "PANIC:"+strings.ReplaceAll(fmt.Sprint(rec), " ", "_"))
+		}
+	}()
+	{
+		base := liveHeap()
+		t := newTree(spec)
+		hc := histCfg{spec: spec}
+		switch {
+		case strings.HasPrefix(spec, "alpha"):
+			hc.unis = alphaUniverses()
+		case strings.HasPrefix(spec, "num"):
+			hc.unis = numUniverses(strings.Fields(spec)[1])
+		case strings.HasPrefix(spec, "coll"):
+			hc.unis = collUniverses()
+		case strings.HasPrefix(spec, "comp"):
+			hc.unis = compUniverses(strings.Split(strings.Fields(spec)[1], ","))
+		}
+		seen := map[string]bool{}
+		var keys []string
+		for tries := 0; len(keys) < 800 && tries < 100000; tries++ {
+			k := pick(r, hc.unis).next(r)
+			c := t.TranscriptLit(k)
+			if seen[c] || (strings.HasPrefix(spec, "alpha") && strings.Contains(k, "00") && bytes.IndexByte(unhex(k), 0) >= 0) {
+				continue
+			}
+			if strings.HasPrefix(spec, "coll") {
+				dup := false
+				cname := strings.Fields(spec)[2]
+				// cheap proviso: identical sort keys only
+				for _, p := range keys {
+					if t.TranscriptLit(p)[len(p):] == c[len(k):] {
+						dup = true
+						break
+					}
+				}
+				_ = cname
+				if dup {
+					continue
+				}
+			}
+			seen[c] = true
+			keys = append(keys, k)
+		}
+		for i, k := range keys {
+			t.Insert(k, i)
+		}
+		report := func(phase string, before uint64) {
+			after := liveHeap()
+			grew := int64(after) - int64(before)
+			name := fmt.Sprintf("assert 0 retained-heap-bounded/%s/%s/ops=%d", strings.ReplaceAll(spec, " ", "_"), phase, n)
+			if grew > slack {
+				tr.emit(name, fmt.Sprintf("grew=%dB(before=%d,after=%d)", grew, before, after))
+			} else {
+				tr.emit(name, "ok")
+			}
+			tr.stats["mem-max-growth-bytes"] = max(tr.stats["mem-max-growth-bytes"], int(grew))
+		}
+		// read-only queries
+		before := liveHeap()
+		for i := 0; i < n; i++ {
+			k := keys[r.Intn(len(keys))]
+			switch i % 8 {
+			case 0, 1, 2:
+				t.Get(k)
+			case 3:
+				t.Get(pick(r, hc.unis).next(r))
+			case 4:
+				t.Min()
+			case 5:
+				t.Max()
+			case 6:
+				t.Size()
+			case 7:
+				if i%512 == 7 {
+					t.Seq([]string{"all"}, 3, 1)
+					t.Seq([]string{"topk", "2"}, 0, 1)
+				}
+			}
+		}
+		report("queries", before)
+		// overwrites of present keys
+		before = liveHeap()
+		for i := 0; i < n; i++ {
+			t.Insert(keys[r.Intn(len(keys))], i)
+		}
+		report("overwrites", before)
+		// delete / re-insert churn at bounded size
+		before = liveHeap()
+		for i := 0; i < n; i++ {
+			k := keys[r.Intn(len(keys))]
+			t.Delete(k)
+			t.Insert(k, i)
+		}
+		report("churn", before)
+		// failed deletes
+		before = liveHeap()
+		for i := 0; i < n/4; i++ {
+			t.Delete(pick(r, hc.unis).next(r) + "")
+		}
+		for _, k := range keys {
+			t.Insert(k, 1)
+		}
+		report("failed-deletes", before)
+		// empty the tree: what it retains must be a small constant (the tree object itself stays alive)
+		for _, k := range keys {
+			t.Delete(k)
+		}
+		keys = nil
+		seen = nil
+		after := liveHeap()
+		name := fmt.Sprintf("assert 0 emptied-tree-retains-constant/%s", strings.ReplaceAll(spec, " ", "_"))
+		if int64(after)-int64(base) > slack {
+			tr.emit(name, fmt.Sprintf("retained=%dB", int64(after)-int64(base)))
+		} else {
+			tr.emit(name, "ok")
+		}
+		if t.Size() != 0 {
+			tr.emit("assert 0 emptied-tree-size-zero", fmt.Sprint(t.Size()))
+		}
+		runtime.KeepAlive(t)
+		tr.stats["mem-trees"]++
+		tr.stats["mem-ops"] += 3*n + n/4
+	}
+}
+
+// ---- C16 ---------------------------------------------------------------------------------------
+
+type lockedBuf struct {
+	mu sync.Mutex
+	b  bytes.Buffer
+}
+
+func runRaceMode(seed int64, n int, tr *transcript) {
+	// (a) private trees per goroutine: each goroutine runs ordinary histories into its own transcript
+	G := 8
+	var wg sync.WaitGroup
+	outs := make([]*bytes.Buffer, G)
+	stats := make([]map[string]int, G)
+	for g := 0; g < G; g++ {
+		g := g
+		outs[g] = &bytes.Buffer{}
+		stats[g] = map[string]int{}
+		wg.Add(1)
+		go func() {
+			defer wg.Done()
+			w := bufio.NewWriter(outs[g])
+			ltr := &transcript{w: w, stats: stats[g]}
+			r := rand.New(rand.NewSource(seed*100 + int64(g)))
+			s := newSession(ltr)
+			for h := 0; h < n; h++ {
+				fam := families[(g+h)%len(families)]
+				cfgs := histCfgsFor(fam, r)
+				hc := pick(r, cfgs)
+				hc.ops = 150
+				hc.profile = "mixed"
+				hc.maxKeys = 120
+				id := 1000*(g+1) + h
+				s.newTree(id, hc.spec)
+				hh := &history{s: s, r: r, id: id, cfg: hc, present: map[string]string{}, feat: map[string]bool{}}
+				hh.uni = []universe{pick(r, hc.unis)}
+				hh.run()
+				delete(s.trees, id)
+				runtime.Gosched()
+			}
+			w.Flush()
+		}()
+	}
+	wg.Wait()
+	for g := 0; g < G; g++ {
+		tr.w.Write(outs[g].Bytes())
+		for k, v := range stats[g] {
+			tr.stats[k] += v
+		}
+		tr.lines += bytes.Count(outs[g].Bytes(), []byte("\n"))
+	}
+	tr.stats["race-private-goroutines"] = G
+	// (b) one quiescent tree, many readers
+	r := rand.New(rand.NewSource(seed))
+	for i, spec := range []string{"alpha string", "num u32", "num f64", "comp u8,i16,s"} {
+		id := 900 + i
+		s := newSession(tr)
+		s.newTree(id, spec)
+		hc := histCfg{spec: spec, ops: 250, profile: "mixed", maxKeys: 200}
+		switch {
+		case strings.HasPrefix(spec, "alpha"):
+			hc.unis, hc.alpha = alphaUniverses(), true
+		case strings.HasPrefix(spec, "num"):
+			hc.unis, hc.numTy = numUniverses(strings.Fields(spec)[1]), strings.Fields(spec)[1]
+		default:
+			hc.unis = compUniverses(strings.Split(strings.Fields(spec)[1], ","))
+		}
+		h := &history{s: s, r: r, id: id, cfg: hc, present: map[string]string{}, feat: map[string]bool{}}
+		h.uni = []universe{pick(r, hc.unis)}
+		for j := 0; j < 150; j++ {
+			h.insert(h.genKey())
+		}
+		s.exec("dump", id)
+		// readers
+		R := 8
+		routs := make([]*bytes.Buffer, R)
+		var rwg sync.WaitGroup
+		for g := 0; g < R; g++ {
+			g := g
+			routs[g] = &bytes.Buffer{}
+			rwg.Add(1)
+			go func() {
+				defer rwg.Done()
+				w := bufio.NewWriter(routs[g])
+				ltr := &transcript{w: w, stats: map[string]int{}}
+				ls := &session{tr: ltr, trees: s.trees, specs: s.specs, dead: map[int]bool{}}
+				lr := rand.New(rand.NewSource(seed*7 + int64(g)))
+				lh := &history{s: ls, r: lr, id: id, cfg: hc, present: h.present, order: h.order, feat: map[string]bool{}}
+				lh.uni = h.uni
+				for q := 0; q < 40*n; q++ {
+					lh.query()
+					if q%16 == 0 {
+						runtime.Gosched()
+					}
+				}
+				w.Flush()
+			}()
+		}
+		rwg.Wait()
+		for g := 0; g < R; g++ {
+			tr.w.Write(routs[g].Bytes())
+			tr.lines += bytes.Count(routs[g].Bytes(), []byte("\n"))
+		}
+		s.exec("dump", id)
+		tr.stats["race-shared-readers"] += R
+	}
+}
+
+// ---- C18 ---------------------------------------------------------------------------------------
+
+type bigVal struct {
+	a [16]uint64
+}
+
+func gcCheck[K any, V any](tr *transcript, name string, t art.Tree[K, V], keys []K, mk func(i int) V, r *rand.Rand, keyLit func(K) string) {
+	debug.SetGCPercent(1)
+	defer debug.SetGCPercent(100)
+	want := map[string]V{}
+	fail := ""
+	for i, k := range keys {
+		v := mk(i)
+		t.Insert(k, v)
+		want[keyLit(k)] = v
+		if i%16 == 0 {
+			runtime.GC()
+		}
+	}
+	verify := func(phase string) {
+		runtime.GC()
+		got := map[string]V{}
+		var order []string
+		for k, v := range t.All() {
+			got[keyLit(k)] = v
+			order = append(order, keyLit(k))
+		}
+		if !reflect.DeepEqual(got, want) && fail == "" {
+			fail = fmt.Sprintf("%s:All()-differs(len=%d,want=%d)", phase, len(got), len(want))
+		}
+		for _, k := range keys {
+			v, ok := t.Search(k)
+			w, present := want[keyLit(k)]
+			if ok != present || (ok && !reflect.DeepEqual(v, w)) {
+				if fail == "" {
+					fail = fmt.Sprintf("%s:Search(%s)", phase, keyLit(k))
+				}
+			}
+		}
+		if t.Size() != len(want) && fail == "" {
+			fail = fmt.Sprintf("%s:Size=%d,want=%d", phase, t.Size(), len(want))
+		}
+		_ = order
+	}
+	verify("after-inserts")
+	// garbage pressure while the tree is live
+	var junk [][]byte
+	for i := 0; i < 2000; i++ {
+		junk = append(junk, make([]byte, 64+r.Intn(512)))
+		if len(junk) > 64 {
+			junk = junk[32:]
+		}
+	}
+	verify("after-garbage")
+	for i, k := range keys {
+		if i%2 == 0 {
+			t.Delete(k)
+			delete(want, keyLit(k))
+		}
+		if i%32 == 0 {
+			runtime.GC()
+		}
+	}
+	verify("after-deletes")
+	for i, k := range keys {
+		if i%4 == 0 {
+			v := mk(i + 7)
+			t.Insert(k, v)
+			want[keyLit(k)] = v
+		}
+	}
+	verify("after-reinserts")
+	runtime.KeepAlive(junk)
+	if fail == "" {
+		tr.emit("assert 0 keys-and-values-survive-gc/"+name, "ok")
+	} else {
+		tr.emit("assert 0 keys-and-values-survive-gc/"+name, fail)
+	}
+	tr.stats["gc-trees"]++
+	tr.stats["gc-keys"] += len(keys)
+}
+
+func gcForValue[V any](tr *transcript, vname string, mk func(i int) V, r *rand.Rand, n int) {
+	// byte-string keys
+	{
+		var keys []string
+		seen := map[string]bool{}
+		us := alphaUniverses()
+		for len(keys) < n {
+			k := string(unhex(pick(r, us).next(r)))
+			if !seen[k] && !strings.Contains(k, "\x00") {
+				seen[k] = true
+				keys = append(keys, k)
+			}
+		}
+		gcCheck(tr, "alpha-string/"+vname, art.NewAlphaSortedTree[string, V](), keys, mk, r, func(k string) string { return hexLit([]byte(k)) })
+		bkeys := make([][]byte, len(keys))
+		for i, k := range keys {
+			bkeys[i] = []byte(k)
+		}
+		gcCheck(tr, "alpha-bytes/"+vname, art.NewAlphaSortedTree[[]byte, V](), bkeys, mk, r, func(k []byte) string { return hexLit(k) })
+		// collation (sort keys distinct by construction: ASCII lower-case letters of different content)
+		var ckeys []string
+		cseen := map[string]bool{}
+		for len(ckeys) < n/2 {
+			k := string(randBytes(r, []byte("abcdefgh"), 1, 8))
+			if !cseen[k] {
+				cseen[k] = true
+				ckeys = append(ckeys, k)
+			}
+		}
+		gcCheck(tr, "coll-string/"+vname, art.NewCollationSortedTree[string, V](), ckeys, mk, r, func(k string) string { return hexLit([]byte(k)) })
+		rkeys := make([][]rune, len(ckeys))
+		for i, k := range ckeys {
+			rkeys[i] = []rune(k)
+		}
+		gcCheck(tr, "coll-runes/"+vname, art.NewCollationSortedTree[[]rune, V](), rkeys, mk, r, func(k []rune) string { return hexLit([]byte(string(k))) })
+	}
+	// numeric keys
+	{
+		seen := map[uint64]bool{}
+		var u []uint64
+		var s []int32
+		var f []float64
+		for len(u) < n {
+			v := r.Uint64() >> uint(r.Intn(60))
+			if !seen[v] {
+				seen[v] = true
+				u = append(u, v)
+			}
+		}
+		sseen := map[int32]bool{}
+		for len(s) < n {
+			v := int32(r.Uint32())
+			if !sseen[v] {
+				sseen[v] = true
+				s = append(s, v)
+			}
+		}
+		fseen := map[float64]bool{}
+		for len(f) < n {
+			v := r.NormFloat64() * 1e6
+			if !fseen[v] {
+				fseen[v] = true
+				f = append(f, v)
+			}
+		}
+		gcCheck(tr, "unsigned-u64/"+vname, art.NewUnsignedBinaryTree[uint64, V](), u, mk, r, func(k uint64) string { return fmt.Sprint(k) })
+		gcCheck(tr, "signed-i32/"+vname, art.NewSignedBinaryTree[int32, V](), s, mk, r, func(k int32) string { return fmt.Sprint(k) })
+		gcCheck(tr, "float-f64/"+vname, art.NewFloatBinaryTree[float64, V](), f, mk, r, func(k float64) string { return fmt.Sprint(k) })
+		// compound over tuple literals
+		fields := []string{"u16", "i32", "s"}
+		var ck []string
+		cseen := map[string]bool{}
+		cu := compUniverses(fields)[0]
+		for len(ck) < n {
+			k := cu.next(r)
+			if !cseen[k] {
+				cseen[k] = true
+				ck = append(ck, k)
+			}
+		}
+		gcCheck(tr, "compound/"+vname, art.NewCompoundTree[string, V](schemaCodec{fields}), ck, mk, r, func(k string) string { return k })
+	}
+}
+
+func runGCMode(seed int64, n int, tr *transcript) {
+	r := rand.New(rand.NewSource(seed))
+	gcForValue(tr, "int", func(i int) int { return i * 3 }, r, n)
+	gcForValue(tr, "string", func(i int) string { return strings.Repeat("v", i%7) + strconv.Itoa(i) }, r, n)
+	gcForValue(tr, "ptr", func(i int) *int { x := i * 5; return &x }, r, n)
+	gcForValue(tr, "slice", func(i int) []int { return []int{i, i + 1, i + 2} }, r, n)
+	gcForValue(tr, "big", func(i int) bigVal { var b bigVal; b.a[0], b.a[15] = uint64(i), uint64(i)*7; return b }, r, n)
+	gcForValue(tr, "zero-size", func(i int) struct{} { return struct{}{} }, r, n)
+	keys := make([]string, 0, len(tr.stats))
+	for k := range tr.stats {
+		keys = append(keys, k)
+	}
+	sort.Strings(keys)
+}
